@@ -733,8 +733,7 @@ func checkC19(p *Prog, res *Result, tier string) {
 
 	// ---- R6: shared batches are read-only (C05-R8) ----
 	{
-		sub5 := newResult("C05")
-		checkC05(p, sub5, tier)
+		sub5 := p.subResult("C05", tier)
 		for _, o := range sub5.Obls {
 			if o.Rule == "C05-R8" {
 				res.add("C19-R6", o.Rule+" "+o.Construct, o.Status, o.Pos, o.Detail)
